@@ -5,6 +5,7 @@ ROOT = os.path.dirname(os.path.dirname(os.path.abspath(__file__)))
 props = {f[:-5]: json.load(open(os.path.join(ROOT, "props", f))) for f in sorted(os.listdir(os.path.join(ROOT, "props"))) if f.endswith(".json")}
 na_path = os.path.join(ROOT, "not_applicable.json")
 na = json.load(open(na_path)) if os.path.exists(na_path) else []
+na = [x for x in na if x["property_id"] not in props]
 checks = []
 for pid in sorted(props):
     c = props[pid]
